@@ -1271,6 +1271,10 @@ func (dsc *dataStoreCommand) lpop(keyName string, count int) (values [][]byte, e
 		return
 	}
 
+	// never more than the list holds (the count comes from the client)
+	if count > list.count {
+		count = list.count
+	}
 	values = make([][]byte, 0, count)
 
 	for ; count > 0; count-- {
@@ -1376,6 +1380,10 @@ func (dsc *dataStoreCommand) rpop(keyName string, count int) (values [][]byte, e
 		return
 	}
 
+	// never more than the list holds (the count comes from the client)
+	if count > list.count {
+		count = list.count
+	}
 	values = make([][]byte, 0, count)
 
 	for ; count > 0; count-- {
